@@ -390,3 +390,7 @@ def _r20_5(res, P, cfgname):
             res.ok("R20.5", cfgname, key, sample=dict(function=path, asserts=cnt, debug_assertions=P.units[f["crate"]].debug_assertions))
         else:
             res.fail("R20.5", cfgname, key, "%s has %d assert! edges in this configuration, %d are required (a non-normalised static literal must be rejected in release builds too)" % (path, cnt, k), span_loc(f["sp"]))
+
+
+LEVEL = LEVEL + ' Also (R20.3b) FBig::from_parts_const hands on min_precision on every return path, (R20.7) the macro crate checks nothing in debug assertions only (profile independence); (R20.6w, thorough) 16 literals outside the grammar are rejected at compile time (with compiling twins).'
+TECHNIQUE = 'call-graph reachability from the proc-macro entries to the run-time parsers; error-discipline rule on Result<_, ParseError>; attribute-carried-on-all-paths dataflow over the token generators; threshold / conversion pairing; debug-region inventory; compile-fail witnesses with twins'
